@@ -419,7 +419,10 @@ func genC14(r *R, n int, tier string, out *Out) {
 		isObj := r.chance(0.35)
 		// mixture with multiplicities 0/1/3 per kind
 		var elems []*V
-		for k := 0; k < 7; k++ {
+		if i < 2 { // the empty list and the empty object are always among the cases
+			isObj = i == 1
+		}
+		for k := 0; k < 7 && i >= 2; k++ {
 			m := pickOf(r, []int{0, 0, 1, 3, 2})
 			for j := 0; j < m; j++ {
 				var e *V
@@ -458,7 +461,15 @@ func genC14(r *R, n int, tier string, out *Out) {
 			input = vlist(elems...)
 			l := input.toList()
 			before := canon(l)
+			var results []at.List
 			add := func(v *V) { obs = append(obs, obsItem{false, v}) }
+			addL := func(x at.List) { results = append(results, x); add(fromAny(x)) }
+			func() {
+			defer func() {
+				if e := recover(); e != nil {
+					fail("a view panicked: %v", e)
+				}
+			}()
 			// XSlice
 			add(listOf(l.ObjectSlice()))
 			add(listOf(l.ListSlice()))
@@ -486,18 +497,18 @@ func genC14(r *R, n int, tier string, out *Out) {
 			l.ForEachFloat(func(x float64) { lf = append(lf, x) })
 			add(listOf(lf))
 			// MapX
-			add(fromAny(l.MapObjects(func(x at.Object) any { return cbMap(x) })))
-			add(fromAny(l.MapLists(func(x at.List) any { return cbMap(x) })))
-			add(fromAny(l.MapStrings(func(x string) any { return cbMap(x) })))
-			add(fromAny(l.MapBools(func(x bool) any { return cbMap(x) })))
-			add(fromAny(l.MapInts(func(x int) any { return cbMap(x) })))
-			add(fromAny(l.MapFloats(func(x float64) any { return cbMap(x) })))
+			addL((l.MapObjects(func(x at.Object) any { return cbMap(x) })))
+			addL((l.MapLists(func(x at.List) any { return cbMap(x) })))
+			addL((l.MapStrings(func(x string) any { return cbMap(x) })))
+			addL((l.MapBools(func(x bool) any { return cbMap(x) })))
+			addL((l.MapInts(func(x int) any { return cbMap(x) })))
+			addL((l.MapFloats(func(x float64) any { return cbMap(x) })))
 			// FilterX (no FilterBools in the API)
-			add(fromAny(l.FilterObjects(func(x at.Object) bool { return truthy(x) })))
-			add(fromAny(l.FilterLists(func(x at.List) bool { return truthy(x) })))
-			add(fromAny(l.FilterStrings(func(x string) bool { return truthy(x) })))
-			add(fromAny(l.FilterInts(func(x int) bool { return truthy(x) })))
-			add(fromAny(l.FilterFloats(func(x float64) bool { return truthy(x) })))
+			addL((l.FilterObjects(func(x at.Object) bool { return truthy(x) })))
+			addL((l.FilterLists(func(x at.List) bool { return truthy(x) })))
+			addL((l.FilterStrings(func(x string) bool { return truthy(x) })))
+			addL((l.FilterInts(func(x int) bool { return truthy(x) })))
+			addL((l.FilterFloats(func(x float64) bool { return truthy(x) })))
 			// ReduceX
 			add(vstr(l.ReduceStrings(">", func(a, s string) string { return a + "|" + s })))
 			add(vint(l.ReduceInts(7, func(a, z int) int { return a*31 + z })))
@@ -517,12 +528,41 @@ func genC14(r *R, n int, tier string, out *Out) {
 			vals := &V{K: KList}
 			l.ForEachValue(func(x any) { vals.L = append(vals.L, fromAny(x)) })
 			add(vals)
-			add(fromAny(l.Map(func(i int, x any) any { return at.NewList(i, x) })))
-			add(fromAny(l.MapValues(func(x any) any { return cbMap(x) })))
-			add(fromAny(l.Filter(func(x any) bool { return truthy(x) })))
-			add(fromAny(l.Reduce(at.NewList(), func(acc any, x any) any { return acc.(at.List).Clone().Add(x) })))
+			addL((l.Map(func(i int, x any) any { return at.NewList(i, x) })))
+			addL((l.MapValues(func(x any) any { return cbMap(x) })))
+			addL((l.Filter(func(x any) bool { return truthy(x) })))
+			redAny := func(acc any, x any) any {
+				if al, ok := acc.(at.List); ok {
+					return al.Clone().Add(x)
+				}
+				return at.NewList(acc, x)
+			}
+			add(fromAny(l.Reduce(at.NewList(), redAny)))
+			add(fromAny(l.Reduce(nil, redAny)))
 			if canon(l) != before {
 				fail("a view modified the list")
+			}
+			// results are new lists with their own storage: none is the receiver, and changing one changes neither the
+			// receiver nor any other result
+			var canons []string
+			for _, x := range results {
+				canons = append(canons, canon(x))
+			}
+			for ri, x := range results {
+				if x == at.List(l) {
+					fail("result %d of a Map/Filter view is the receiver itself", ri)
+					break
+				}
+				x.Add("\x00sentinel")
+				if canon(l) != before {
+					fail("adding to result %d of a Map/Filter view changed the receiver", ri)
+					break
+				}
+				for rj, y := range results {
+					if rj > ri && canon(y) != canons[rj] {
+						fail("adding to result %d of a Map/Filter view changed result %d", ri, rj)
+					}
+				}
 			}
 			// property predicate, independently of the model: typed views = elements whose TypeOf is X, in index order;
 			// identity: the containers handed out are the stored ones
@@ -548,6 +588,7 @@ func genC14(r *R, n int, tier string, out *Out) {
 			if len(pairs.L) != l.Count() {
 				fail("ForEach visited %d of %d elements", len(pairs.L), l.Count())
 			}
+			}()
 		} else {
 			input = &V{K: KObj}
 			seen := map[string]bool{}
@@ -563,7 +604,15 @@ func genC14(r *R, n int, tier string, out *Out) {
 			ob := input.toObject()
 			before := canon(ob)
 			addM := func(v *V) { obs = append(obs, obsItem{true, v}) }
+			var results []at.Object
 			add := func(v *V) { obs = append(obs, obsItem{false, v}) }
+			addO := func(x at.Object) { results = append(results, x); add(fromAny(x)) }
+			func() {
+			defer func() {
+				if e := recover(); e != nil {
+					fail("a view panicked: %v", e)
+				}
+			}()
 			kvl := &V{K: KList}
 			ob.ForEach(func(k string, x any) { kvl.L = append(kvl.L, vlist(vstr(k), fromAny(x))) })
 			addM(kvl)
@@ -588,14 +637,14 @@ func genC14(r *R, n int, tier string, out *Out) {
 			var lf []float64
 			ob.ForEachFloat(func(x float64) { lf = append(lf, x) })
 			addM(listOf(lf))
-			add(fromAny(ob.Map(func(k string, x any) any { return at.NewList(k, x) })))
-			add(fromAny(ob.MapValues(func(x any) any { return cbMap(x) })))
-			add(fromAny(ob.MapObjects(func(x at.Object) any { return cbMap(x) })))
-			add(fromAny(ob.MapLists(func(x at.List) any { return cbMap(x) })))
-			add(fromAny(ob.MapStrings(func(x string) any { return cbMap(x) })))
-			add(fromAny(ob.MapBools(func(x bool) any { return cbMap(x) })))
-			add(fromAny(ob.MapInts(func(x int) any { return cbMap(x) })))
-			add(fromAny(ob.MapFloats(func(x float64) any { return cbMap(x) })))
+			addO((ob.Map(func(k string, x any) any { return at.NewList(k, x) })))
+			addO((ob.MapValues(func(x any) any { return cbMap(x) })))
+			addO((ob.MapObjects(func(x at.Object) any { return cbMap(x) })))
+			addO((ob.MapLists(func(x at.List) any { return cbMap(x) })))
+			addO((ob.MapStrings(func(x string) any { return cbMap(x) })))
+			addO((ob.MapBools(func(x bool) any { return cbMap(x) })))
+			addO((ob.MapInts(func(x int) any { return cbMap(x) })))
+			addO((ob.MapFloats(func(x float64) any { return cbMap(x) })))
 			if canon(ob) != before {
 				fail("a view modified the object")
 			}
@@ -611,6 +660,18 @@ func genC14(r *R, n int, tier string, out *Out) {
 			if len(kvl.L) != ob.Count() {
 				fail("ForEach visited %d of %d fields", len(kvl.L), ob.Count())
 			}
+			for ri, x := range results {
+				if x == at.Object(ob) {
+					fail("result %d of a Map view is the receiver itself", ri)
+					break
+				}
+				x.Set("\x00sentinel", 1)
+				if canon(ob) != before {
+					fail("setting a field of result %d of a Map view changed the receiver", ri)
+					break
+				}
+			}
+			}()
 		}
 		kinds := map[Kind]int{}
 		for _, e := range elems {
@@ -643,6 +704,8 @@ func genC17(r *R, n int, tier string, out *Out) {
 		ln := 1 + r.Intn(9)
 		if r.chance(0.08) {
 			ln = 0
+		} else if r.chance(0.15) {
+			ln = 13 + r.Intn(40) // beyond the insertion-sort threshold of sort.Slice and friends
 		}
 		var elems []*V
 		tag := ""
@@ -695,7 +758,43 @@ func genC17(r *R, n int, tier string, out *Out) {
 		for _, e := range elems {
 			e.sortKeys()
 		}
+		// how the list under test is built: from a literal, or through constructors/derivations that (in the current
+		// implementation) leave several slots holding the same scalar wrapper - contents are the same either way
+		build := "literal"
+		if mode <= 5 && ln >= 2 {
+			switch r.Intn(5) {
+			case 0:
+				build = "self-concat"
+				h := ln / 2
+				elems = append(append([]*V{}, elems[:h]...), elems[:h]...)
+				ln = len(elems)
+			case 1:
+				build = "listof-replace"
+				for j := range elems {
+					if r.chance(0.5) {
+						elems[j] = elems[0]
+					}
+				}
+			}
+		}
 		input := vlist(elems...)
+		mk := func() at.List {
+			switch build {
+			case "self-concat":
+				half := vlist(elems[:ln/2]...).toList()
+				return half.Concat(half)
+			case "listof-replace":
+				l := at.NewListOf(elems[0].toAny(), ln)
+				for j, e := range elems {
+					if e != elems[0] {
+						l.Replace(j, e.toAny())
+					}
+				}
+				return l
+			}
+			return input.toList()
+		}
+		tag += "/" + build
 		pred, msg := true, ""
 		fail := func(f string, x ...any) {
 			if pred {
@@ -703,7 +802,7 @@ func genC17(r *R, n int, tier string, out *Out) {
 			}
 		}
 		// Reverse on a fresh copy
-		lr := input.toList()
+		lr := mk()
 		held := make([]any, lr.Count())
 		for k := range held {
 			held[k] = lr.Get(k)
@@ -723,8 +822,11 @@ func genC17(r *R, n int, tier string, out *Out) {
 			fail("Reverse twice does not restore the list")
 		}
 		// Sort
-		ls := input.toList()
+		ls := mk()
 		before := canon(ls)
+		if before != input.canon() {
+			fail("the list built by %s does not hold the intended elements", build)
+		}
 		var sorted at.List
 		panicked := try(func() { sorted = ls.Sort() })
 		srt := "Panic"
